@@ -299,7 +299,7 @@ Theorem c19_checker_meaning : forall e o,
    reported_num (o_max o) (s_max e) 0 /\
    reported_num (o_sum o) (s_sum e) (eps * mag * nq) /\
    reported_num (o_avg o) (s_avg e) (eps * mag) /\
-   reported_dev (o_dev o) (s_dev e) (4 * eps * mag * mag)).
+   reported_var (o_dev o) (s_dev e) mag).
 Proof. exact snap_diff_nil_iff. Qed.
 Print Assumptions c19_checker_meaning.
 
